@@ -565,6 +565,26 @@ def toggles(bs, acc, depth):
                                             ["assert last == ref, (last, ref)"]), table[(name, mode)], r)
                     break
             acc.state(('toggle', hist))
+    # other spellings of the switch: a truthy / falsy value that is not a bool, and the module-level attribute
+    for label, on, off in (('int', "bitstring.options.lsb0 = 1", "bitstring.options.lsb0 = 0"), ('module-attr', "bitstring.lsb0 = True", "bitstring.lsb0 = False"),
+                           ('str', "bitstring.options.lsb0 = 'yes'", "bitstring.options.lsb0 = ''")):
+        for name, src in TOGGLE_CALLS:
+            core.set_options(lsb0=False)
+            for mode, setter in ((True, on), (False, off), (True, on)):
+                run_src(dict(bitstring=bs), setter)
+                ns = dict(bitstring=bs, s=bs.Bits(bin=d), m=bs.BitArray(bin=d))
+                r = run_src(ns, src)
+                flag = bs.options.lsb0
+                n += 1
+                if r != table[(name, mode)] or flag is not mode:
+                    acc.violation('toggle', 'value', dict(spelling=label, call=name, lsb0=mode, group=f'{label}|{name}'),
+                                  '\n'.join(["import bitstring", f"d = {d!r}", "def run(src):", "    ns = dict(bitstring=bitstring, s=bitstring.Bits(bin=d), m=bitstring.BitArray(bin=d))", "    return eval(src, ns)",
+                                             f"bitstring.options.lsb0 = {mode}", f"ref = run({src!r})", "bitstring.options.lsb0 = False", on] + ([off, on] if False else []) +
+                                            ([] if mode else [off]) + [f"last = run({src!r})", f"assert last == ref and bitstring.options.lsb0 is {mode}, (last, ref, bitstring.options.lsb0)"]),
+                                  table[(name, mode)], (r, flag))
+                    break
+        acc.state(('toggle-spelling', label))
+    core.set_options(lsb0=False)
     acc.step('toggle', n, nontrivial=n, ok=n)
     acc.outcome(('toggle', depth))
     core.set_options(lsb0=False)
